@@ -17,6 +17,15 @@ claimed = {
    technique='stateless model checking of the real code under a controlled scheduler (virtual clock for the batch time-out): delay-bounded DFS with a happens-before state cache',
    text='Producers, Flush, one or two StopBatchWriter callers and the writer goroutine of the real BatchedWriter over the real mapdb are explored for queue sizes 0-2 and batch sizes 1-2 with at most 2 (quick) / 3 (thorough) deviations (early time-out firing is a deviation). Oracle on the recorded log: BatchWrite -> store commit -> BatchWriteDone per scheduling, nothing after Stop returned, store contents == last BatchWrite, every Enqueue that returned before Stop was invoked is written, every call returns.',
    note='Trusted: shim fidelity incl. timers (selftest); harness object implements the scheduled flag as atomic test-and-set. Two genuine defects were repaired (fix: commits a4707ca, 3cdaa7b).', ref='2 C08'),
+
+ 'C10': dict(cat='model_checking', engine='H',
+   technique='explicit-state search over operation histories of the real list against container/list (BFS with state merging to a fixpoint under a handle bound, plus depth-bounded DFS without merging)',
+   text='Every history of the 12 List operations with every handle argument (live, removed, foreign, created by PushBackList copies) on two lists, both flavours, is executed on the real ds.List and on container/list; after every step forward/backward order, Len, Front/Back identity and Prev/Next/Value of every handle are compared. Merged search reaches the fixpoint for <= 5 (thorough 6) handles; unmerged search covers all histories of depth 4 (thorough 5) with 3 handles. The thread-safe flavour runs on the instrumented sync shim, so a self-deadlock is reported instead of hanging.',
+   note='Trusted: container/list as reference; handles that predate an Init of their list are retired (container/list is undefined there). Two genuine defects were repaired (fix: commits be487f4, d796801).', ref='2 C10'),
+ 'C04': dict(cat='model_checking', engine='H',
+   technique='explicit-state breadth-first search over operation histories on the real store views against a single ordered-map model, states merged on the model state',
+   text='All histories up to depth 4 (thorough 6) of mutating operations (Set/Delete/DeletePrefix/Clear/Close; batch focus: Batched/b.Set/b.Delete/Commit/Cancel/Flush) through 3 views of one mapdb, for 6 view trees (nested, overlapping, empty and 0xff-terminated realms, WithRealm vs WithExtendedRealm) x up to 5 wrapper stacks. After every step every Get/Has/Iterate/IterateKeys (4 prefixes x 2 directions x stop/no stop) of every view, Realm() and the whole contents seen through the unwrapped root are compared with one map keyed by realm||key; error identities (ErrKeyNotFound/ErrStoreClosed) included; all caller buffers and returned slices are overwritten after each call.',
+   note='Trusted: the model (sorted Go map). Mutation of a value slice between batch Set and Commit is outside the statement and not exercised.', ref='2 C04'),
 }
 na_reason = 'check not built yet in this round (engine exists; see DESIGN.md section 9 for the order of work)'
 checks = []
